@@ -11,9 +11,12 @@ cooperative-selector event loop (`cooploop.CoopLoop`):
 Each case is run twice under `detsched.run` with the case's chooser — once through the async
 variant (event loop in the scheduler-managed main thread, servlet/pool threads scheduled like any
 other), once through the sync variant — and the monitors compare the two answers with each other
-and with the specification computed from the case alone.  Monitors only (no Lean trace
-validation: these variants differ from `async_fifo_stream` only in what `func` is; the servers'
-own ledger is C02's model).
+and with the specification computed from the case alone.  For `srv_stream` and `apmap_thread` the
+async side also records the observable events of the underlying `async_fifo_stream` (pull / preFail /
+submit = entry into `_enqueue` resp. `executor.submit` / start / finish = `Worker.call` resp. the
+pool function / yld / next / close / join), which `drv afifo` validates against the Lean model
+(cancelling these awaitables is the model's `drainDetach`).  `srv_call` and `pmap_async`: monitors only
+(the servers' own ledger is C02's model; `ParmapperAsync` runs on the *sync* `fifo_stream`).
 
 Import only after `detsched.install()`.
 """
@@ -27,10 +30,12 @@ from mpservice._common import StopRequested
 from mpservice.mpserver import AsyncServer, Server, ThreadServlet, Worker
 from mpservice.streamer import Stream
 from mpservice.streamer._streamer_async import AsyncParmapper
+import mpservice.streamer._streamer_async as _SA
 
 cooploop.install()      # loops created by the code under test (ParmapperAsync) are cooperative, virtual-time loops
 
-MODEL = None
+MODEL = 'afifo'
+_OrigTPE = _SA.ThreadPoolExecutor
 BASE = 100
 PP = 1000
 FOREVER = 1e6
@@ -147,17 +152,28 @@ def _one_side(case, asynchronous):
     off = BASE + (PP if case['pre'] else 0)
     calls = {}
     kind = case['kind']
+    ev = []
+    log = ev.append if asynchronous else (lambda e: None)
 
     def compute(x):
         i = x - off
         calls[i] = calls.get(i, 0) + 1
         if not 0 <= i < n:
             return ('fed-unprocessed-input', i)
-        for _ in range(dur[i]):
-            detsched.yield_here('work')
-        if i in re:
-            raise WorkError(i)
-        return ('y', i)
+        log(('start', i))
+        try:
+            for _ in range(dur[i]):
+                detsched.yield_here('work')
+            if i in re:
+                raise WorkError(i)
+            return ('y', i)
+        finally:
+            log(('finish', i))
+
+    class LoggingTPE(_OrigTPE):
+        def submit(self, fn, x, *a, **kw):
+            log(('submit', x - off))
+            return super().submit(fn, x, *a, **kw)
 
     class W(Worker):
         def call(self, x):
@@ -177,12 +193,14 @@ def _one_side(case, asynchronous):
     def pre(x):
         i = x - BASE
         if i in pf:
+            log(('preFail', i))
             raise PreError(i)
         return x + PP
 
     prep = pre if case['pre'] else None
 
     def src_end():
+        log(('srcEnd',) if case['src'] == 'clean' else ('srcRaise',))
         if case['src'] == 'exc':
             raise SrcError('src')
         if case['src'] == 'stopreq':
@@ -195,6 +213,7 @@ def _one_side(case, asynchronous):
 
     async def async_src():
         for i in range(n):
+            log(('pull', i))
             yield BASE + i
         src_end()
 
@@ -212,14 +231,29 @@ def _one_side(case, asynchronous):
             return _classify(e)
 
     async def async_consume(gen):
+        first = True
         try:
-            async for v in gen:
-                out.append(_decode(v, case['retx']))
+            while True:
+                if not first:
+                    log(('next',))
+                first = False
+                v = await gen.__anext__()
+                ix, iy, k = _decode(v, case['retx'])
+                log(('yld', iy if iy is not None else -1) + ((ix,) if ix is not None else ()))
+                out.append((ix, iy, k))
                 if case['stop_after'] is not None and len(out) == case['stop_after']:
+                    log(('close',))
                     await gen.aclose()
+                    # No `join` here: `AsyncServer.stream` and `AsyncParmapper.__aiter__` are async generators
+                    # *around* `async_fifo_stream`; closing the outer one does not close the inner one
+                    # synchronously (it is finalised later by the loop's asyncgen hook), so the inner
+                    # generator's return is not observable at this point.
                     return ('closed',)
+        except StopAsyncIteration:
+            log(('join',))
             return ('end',)
         except (WorkError, PreError, SrcError, StopRequested, UnboundLocalError) as e:
+            log(('join',))
             return _classify(e)
 
     def sync_main():
@@ -257,12 +291,22 @@ def _one_side(case, asynchronous):
 
     async def async_main():
         if kind == 'apmap_thread':
-            gen = AsyncParmapper(async_src(), compute, executor='thread', concurrency=case['conc'],
-                                 return_x=case['retx'], return_exceptions=case['rexc'],
-                                 preprocessor=prep).__aiter__()
-            return await async_consume(gen)
+            _SA.ThreadPoolExecutor = LoggingTPE
+            try:
+                gen = AsyncParmapper(async_src(), compute, executor='thread', concurrency=case['conc'],
+                                     return_x=case['retx'], return_exceptions=case['rexc'],
+                                     preprocessor=prep).__aiter__()
+                return await async_consume(gen)
+            finally:
+                _SA.ThreadPoolExecutor = _OrigTPE
         async with AsyncServer(ThreadServlet(W, num_threads=case['conc']), capacity=case['cap']) as srv:
             if kind == 'srv_stream':
+                orig_enqueue = srv._enqueue
+
+                async def logging_enqueue(x, **kw):
+                    log(('submit', x - off))
+                    return await orig_enqueue(x, **kw)
+                srv._enqueue = logging_enqueue
                 gen = srv.stream(async_src(), return_x=case['retx'], return_exceptions=case['rexc'],
                                  timeout=FOREVER, preprocessor=prep)
                 return await async_consume(gen)
@@ -291,13 +335,15 @@ def _one_side(case, asynchronous):
 
     chooser = detsched.make_chooser(tuple(case['chooser']), case['seed'] + (1 if asynchronous else 0))
     v, e, s = detsched.run(main, chooser, max_steps=case.get('max_steps', 300000))
-    return v, e, s, out, calls
+    if asynchronous and e is None:
+        ev.append(('final',))
+    return v, e, s, out, calls, ev
 
 
 def run_case(case):
-    av, ae, as_, aout, acalls = _one_side(case, True)
-    sv, se, ss, sout, scalls = _one_side(case, False)
-    res = dict(events=[('async-steps', as_.steps), ('sync-steps', ss.steps)], switches=as_.switches, monitors=[],
+    av, ae, as_, aout, acalls, aev = _one_side(case, True)
+    sv, se, ss, sout, scalls, _ = _one_side(case, False)
+    res = dict(events=aev, steps=[as_.steps, ss.steps], switches=as_.switches, monitors=[],
                out=None, end=None, sync_out=None, sync_end=None)
     mon = res['monitors']
     if se is not None:
@@ -348,5 +394,59 @@ def run_case(case):
     return res
 
 
-def model_lines(cid, case, res):
-    return []
+VALIDATED_KINDS = ('srv_stream', 'apmap_thread')
+
+
+def model_lines(cid, case, res, stale=False):
+    """Lines for `drv afifo` (kinds whose async side is `async_fifo_stream` with a future-returning `func`)."""
+    if case['kind'] not in VALIDATED_KINDS:
+        return []
+    src = 'clean' if case['src'] == 'clean' else 'exc'
+    pfl = ','.join(map(str, case['pf'])) if case['pre'] else ''
+    lines = [f'case {cid} n={case["n"]} cap={case["cap"]} rexc={int(case["rexc"])} '
+             f'src={src} pf={pfl} re={",".join(map(str, case["re"]))}']
+    final = 0
+    for e in res['events']:
+        if e[0] == 'final':
+            final = 1
+            continue
+        lines.append('e ' + ' '.join(str(x) for x in e))
+    if res.get('out') is None:
+        lines.append('end out=0 raised=none close=0 final=0 partial=1')
+        return lines
+    end = res['end']
+    if end[0] == 'raise':
+        if end[1] in ('src', 'stopreq') or (stale and end[1] == 'other:UnboundLocalError'):
+            raised = 'src'
+        elif end[1].startswith('other'):
+            raised = 'foreign'
+        else:
+            raised = f'item:{end[2]}'
+    else:
+        raised = 'none'
+    if end[0] == 'closed':
+        final = 0       # see `async_consume`: the inner generator may still be winding down
+    lines.append(f'end out={len(res["out"])} raised={raised} close={int(end[0] == "closed")} final={final}')
+    return lines
+
+
+_K = {'ok': 'o', 'work': 'w', 'pre': 'p'}
+
+
+def differential(case, res, verdict_line):
+    if res.get('out') is None:
+        return None
+    kv = dict(w.split('=', 1) for w in verdict_line.split() if '=' in w)
+    got = ','.join(f'{pos if ix is None else ix}:{_K.get(k, "?")}{iy}' for pos, (ix, iy, k) in enumerate(res['out']))
+    if kv.get('dl', '') != got:
+        return f'model delivered [{kv.get("dl")}] but the code delivered [{got}]'
+    end = res['end']
+    if end[0] != 'closed':
+        if end[0] == 'raise':
+            raised = 'src' if end[1] in ('src', 'stopreq') else f'item:{end[2]}'
+        else:
+            raised = 'none'
+        oc = f'{len(res["out"])}/{raised}'
+        if kv.get('oc') != oc:
+            return f'model outcome {kv.get("oc")} but the code ended with {oc}'
+    return None
